@@ -172,7 +172,7 @@ struct FnExporter {
     if (isa<CXXConstructorDecl>(F)) fo["ctor"] = true; if (isa<CXXDestructorDecl>(F)) fo["dtor"] = true;
     if (F->isTemplateInstantiation()) fo["inst"] = true;
     json::Array ps; for (auto *P : F->parameters()) { json::Object p; p["name"] = P->getNameAsString(); p["did"] = X.did(P); X.tyInfo(p, P->getType()); p["byref"] = P->getType()->isReferenceType(); p["constref"] = P->getType()->isReferenceType() && P->getType().getNonReferenceType().isConstQualified(); ps.push_back(std::move(p)); } fo["params"] = std::move(ps);
-    CFG::BuildOptions bo; bo.AddImplicitDtors = true; bo.AddTemporaryDtors = true; bo.AddInitializers = true; bo.setAllAlwaysAdd();
+    CFG::BuildOptions bo; bo.AddImplicitDtors = true; bo.AddTemporaryDtors = true; bo.AddInitializers = true; bo.AddCXXDefaultInitExprInCtors = true; bo.setAllAlwaysAdd();
     std::unique_ptr<CFG> cfg = CFG::buildCFG(F, F->getBody(), &X.C, bo);
     if (!cfg) { fo["nocfg"] = true; return std::move(fo); }
     // pass 1: decide which CFGStmt elements are exported and assign indices
